@@ -107,7 +107,9 @@ func VH_C03_hostile() {
 			mode = v.U32("mode")
 		}
 		st := &types.Stat{Path: p, Mode: mode, Linkname: link, Uid: 9, Gid: 9, ModTime: vh_mtimes()[0]}
-		if v.Bool("xattr") {
+		// (a solver choice for single-packet scripts; always present in longer scripts, where the
+		// choice would double the script space per packet without adding a behaviour)
+		if k > 1 || v.Bool("xattr") {
 			// extended attributes on any kind of entry (on a symlink they must not reach its target)
 			st.Xattrs = map[string][]byte{"user.h": []byte("1")}
 		}
